@@ -10,6 +10,8 @@
 #include "../utility/FixedArrayView.h"
 #include "../utility/OwnedArray.h"
 
+#include <type_traits>
+#include <utility>
 #include <vector>
 
 namespace rkcommon {
@@ -102,9 +104,26 @@ namespace rkcommon {
       std::shared_ptr<utility::FixedArray<uint8_t>> buffer;
     };
 
+    namespace detail {
+      /*! detects the array wrapper types (anything derived from
+       * utility::AbstractArray<U>), which are serialized as length + elements
+       * and must not be picked up by the raw data block operator below */
+      template <typename U>
+      std::true_type isAbstractArray(const utility::AbstractArray<U> *);
+      std::false_type isAbstractArray(...);
+
+      template <typename T>
+      struct is_abstract_array
+          : decltype(isAbstractArray(std::declval<const T *>()))
+      {
+      };
+    }  // namespace detail
+
     /*! generic stream operators into/out of streams, for raw data blocks */
     template <typename T>
-    inline WriteStream &operator<<(WriteStream &buf, const T &rh)
+    inline typename std::enable_if<!detail::is_abstract_array<T>::value,
+                                   WriteStream &>::type
+    operator<<(WriteStream &buf, const T &rh)
     {
       buf.write((const byte_t *)&rh, sizeof(T));
       return buf;
